@@ -4,7 +4,7 @@
            with "agree unless one side raises an error" for the planner with ON-condition extraction).
    Part 2: the ON-condition extraction (JoinConditionExtractor) at the level of rows.
    Part 3: physical plans refine logical plans; composition with the judge. *)
-From Coq Require Import NArith ZArith List Bool Lia Permutation.
+From Coq Require Import NArith ZArith List Bool Lia Permutation Btauto.
 From GV Require Import lib.Bytes model.Sql model.Rel model.Plan.
 From GV Require Import proofs.RelProofs.
 Import ListNotations.
@@ -576,3 +576,869 @@ Proof.
     intros x. cbn [opt_pred]. rewrite He. reflexivity. }
   destruct (G Hj) as [_ [GQ _]]. apply GQ; [apply wf_trivial|exact I].
 Qed.
+
+
+(* ================================================================ Part 2: the ON-condition extraction *)
+
+(* induction over the expression structure of a pexpr (plans inside subquery expressions are opaque) *)
+Section PexprInd.
+  Variable P : pexpr -> Prop.
+  Hypotheses
+    (HConst : forall v, P (PConst v))
+    (HCol : forall dd i, P (PCol dd i))
+    (HCmp : forall op a b, P a -> P b -> P (PCmp op a b))
+    (HDistinct : forall neg a b, P a -> P b -> P (PDistinct neg a b))
+    (HAnd : forall a b, P a -> P b -> P (PAnd a b))
+    (HOr : forall a b, P a -> P b -> P (POr a b))
+    (HNot : forall a, P a -> P (PNot a))
+    (HIsNull : forall neg a, P a -> P (PIsNull neg a))
+    (HArith : forall op w a b, P a -> P b -> P (PArith op w a b))
+    (HNeg : forall w a, P a -> P (PNeg w a))
+    (HCase : forall bs els, Forall (fun ct => P (fst ct) /\ P (snd ct)) bs -> P els -> P (PCase bs els))
+    (HInList : forall neg a es, P a -> Forall P es -> P (PInList neg a es))
+    (HExists : forall neg l, P (PExists neg l))
+    (HInSub : forall neg a l, P a -> P (PInSub neg a l))
+    (HScalar : forall l, P (PScalar l)).
+
+  Fixpoint pexpr_ind2 (e : pexpr) : P e :=
+    match e as e0 return P e0 with
+    | PConst v => HConst v
+    | PCol dd i => HCol dd i
+    | PCmp op a b => HCmp op a b (pexpr_ind2 a) (pexpr_ind2 b)
+    | PDistinct neg a b => HDistinct neg a b (pexpr_ind2 a) (pexpr_ind2 b)
+    | PAnd a b => HAnd a b (pexpr_ind2 a) (pexpr_ind2 b)
+    | POr a b => HOr a b (pexpr_ind2 a) (pexpr_ind2 b)
+    | PNot a => HNot a (pexpr_ind2 a)
+    | PIsNull neg a => HIsNull neg a (pexpr_ind2 a)
+    | PArith op w a b => HArith op w a b (pexpr_ind2 a) (pexpr_ind2 b)
+    | PNeg w a => HNeg w a (pexpr_ind2 a)
+    | PCase bs els =>
+        HCase bs els
+          ((fix go (l : list (pexpr * pexpr)) : Forall (fun ct => P (fst ct) /\ P (snd ct)) l :=
+              match l with
+              | [] => Forall_nil _
+              | (c, t) :: l' => Forall_cons (c, t) (conj (pexpr_ind2 c) (pexpr_ind2 t)) (go l')
+              end) bs)
+          (pexpr_ind2 els)
+    | PInList neg a es =>
+        HInList neg a es (pexpr_ind2 a)
+          ((fix go (l : list pexpr) : Forall P l :=
+              match l with [] => Forall_nil _ | x :: l' => Forall_cons x (pexpr_ind2 x) (go l') end) es)
+    | PExists neg l => HExists neg l
+    | PInSub neg a l => HInSub neg a l (pexpr_ind2 a)
+    | PScalar l => HScalar l
+    end.
+End PexprInd.
+
+(* ---------------------------------------------------------------- locality of one-sided expressions *)
+
+Definition leftish (s : side) : bool := match s with SLeft | SNone => true | _ => false end.
+Definition rightish (s : side) : bool := match s with SRight | SNone => true | _ => false end.
+
+Lemma side_combine_leftish a b : leftish (side_combine a b) = leftish a && leftish b.
+Proof. destruct a, b; reflexivity. Qed.
+Lemma side_combine_rightish a b : rightish (side_combine a b) = rightish a && rightish b.
+Proof. destruct a, b; reflexivity. Qed.
+
+Lemma case_side_ish (ish : side -> bool) la bs s0 :
+  (forall a b, ish (side_combine a b) = ish a && ish b) ->
+  ish (fold_right (fun ct s => match ct with (c, t) => side_combine (side_combine (expr_side la c) (expr_side la t)) s end) s0 bs)
+  = forallb (fun ct => ish (expr_side la (fst ct)) && ish (expr_side la (snd ct))) bs && ish s0.
+Proof.
+  intros H. induction bs as [|[c t] bs IH]; [reflexivity|]. cbn [fold_right forallb fst snd].
+  rewrite !H, IH. btauto.
+Qed.
+
+Lemma list_side_ish (ish : side -> bool) la es s0 :
+  (forall a b, ish (side_combine a b) = ish a && ish b) ->
+  ish (fold_right (fun x s => side_combine (expr_side la x) s) s0 es)
+  = forallb (fun x => ish (expr_side la x)) es && ish s0.
+Proof.
+  intros H. induction es as [|x es IH]; [reflexivity|]. cbn [fold_right forallb]. rewrite H, IH. btauto.
+Qed.
+
+Lemma eval_case_ext d en en' bs bs' els els' :
+  Forall2 (fun ct ct' => eval_pexpr d en (fst ct) = eval_pexpr d en' (fst ct') /\
+                         eval_pexpr d en (snd ct) = eval_pexpr d en' (snd ct')) bs bs' ->
+  eval_pexpr d en els = eval_pexpr d en' els' ->
+  eval_pexpr d en (PCase bs els) = eval_pexpr d en' (PCase bs' els').
+Proof.
+  intros Hbs Hels. cbn [eval_pexpr]. induction Hbs as [|[c t] [c' t'] bs bs' [Hc Ht] _ IH]; [exact Hels|].
+  cbn [fst snd] in Hc, Ht. rewrite Hc. destruct (eval_pexpr d en' c') as [cv|e]; cbn [bind]; [|reflexivity].
+  destruct (is_true cv); [exact Ht|exact IH].
+Qed.
+
+Section Locality.
+  Variables (d : db) (en : env) (la : nat) (l r : row).
+  Hypothesis Hlen : length l = la.
+
+  Lemma loc_left : forall e, leftish (expr_side la e) = true ->
+    eval_pexpr d ((l ++ r) :: en) e = eval_pexpr d (l :: en) e.
+  Proof.
+    apply (pexpr_ind2 (fun e => leftish (expr_side la e) = true ->
+                        eval_pexpr d ((l ++ r) :: en) e = eval_pexpr d (l :: en) e)).
+    - reflexivity.
+    - intros [|dd] i H; cbn [expr_side] in H.
+      + destruct (Nat.ltb i la) eqn:E; [|discriminate]. apply Nat.ltb_lt in E.
+        cbn [eval_pexpr nth_error]. rewrite nth_error_app1 by lia. reflexivity.
+      + discriminate.
+    - intros op a b IHa IHb H. cbn [expr_side] in H. rewrite side_combine_leftish in H. apply andb_true_iff in H.
+      cbn [eval_pexpr]. rewrite IHa, IHb by tauto. reflexivity.
+    - intros neg a b IHa IHb H. cbn [expr_side] in H. rewrite side_combine_leftish in H. apply andb_true_iff in H.
+      cbn [eval_pexpr]. rewrite IHa, IHb by tauto. reflexivity.
+    - intros a b IHa IHb H. cbn [expr_side] in H. rewrite side_combine_leftish in H. apply andb_true_iff in H.
+      cbn [eval_pexpr]. rewrite IHa, IHb by tauto. reflexivity.
+    - intros a b IHa IHb H. cbn [expr_side] in H. rewrite side_combine_leftish in H. apply andb_true_iff in H.
+      cbn [eval_pexpr]. rewrite IHa, IHb by tauto. reflexivity.
+    - intros a IHa H. cbn [expr_side] in H. cbn [eval_pexpr]. rewrite IHa by exact H. reflexivity.
+    - intros neg a IHa H. cbn [expr_side] in H. cbn [eval_pexpr]. rewrite IHa by exact H. reflexivity.
+    - intros op w a b IHa IHb H. cbn [expr_side] in H. rewrite side_combine_leftish in H. apply andb_true_iff in H.
+      cbn [eval_pexpr]. rewrite IHa, IHb by tauto. reflexivity.
+    - intros w a IHa H. cbn [expr_side] in H. cbn [eval_pexpr]. rewrite IHa by exact H. reflexivity.
+    - intros bs els IHbs IHels H. cbn [expr_side] in H.
+      rewrite (case_side_ish leftish la bs _ side_combine_leftish) in H. apply andb_true_iff in H. destruct H as [Hb He].
+      apply eval_case_ext; [|apply IHels, He].
+      clear IHels He. induction IHbs as [|[c t] bs [Hc Ht] _ IH]; [constructor|].
+      cbn [forallb fst snd] in Hb. apply andb_true_iff in Hb. destruct Hb as [Hct Hb]. apply andb_true_iff in Hct.
+      constructor; [|apply IH, Hb]. cbn [fst snd] in *. split; [apply Hc|apply Ht]; tauto.
+    - intros neg a es IHa IHes H. cbn [expr_side] in H.
+      rewrite (list_side_ish leftish la es _ side_combine_leftish) in H. apply andb_true_iff in H. destruct H as [Hes Ha].
+      cbn [eval_pexpr]. rewrite IHa by exact Ha.
+      rewrite (mapM_ext_in (eval_pexpr d ((l ++ r) :: en)) (eval_pexpr d (l :: en)) es); [reflexivity|].
+      intros x Hx. rewrite Forall_forall in IHes. rewrite forallb_forall in Hes. apply IHes; [exact Hx|apply Hes, Hx].
+    - intros neg p H. discriminate H.
+    - intros neg a p _ H. discriminate H.
+    - intros p H. discriminate H.
+  Qed.
+
+  Lemma loc_right : forall e, rightish (expr_side la e) = true ->
+    eval_pexpr d ((l ++ r) :: en) e = eval_pexpr d (r :: en) (shift_cols la e).
+  Proof.
+    apply (pexpr_ind2 (fun e => rightish (expr_side la e) = true ->
+                        eval_pexpr d ((l ++ r) :: en) e = eval_pexpr d (r :: en) (shift_cols la e))).
+    - reflexivity.
+    - intros [|dd] i H; cbn [expr_side] in H.
+      + destruct (Nat.ltb i la) eqn:E; [discriminate|]. apply Nat.ltb_ge in E.
+        cbn [shift_cols eval_pexpr nth_error]. rewrite nth_error_app2 by lia. rewrite Hlen. reflexivity.
+      + discriminate.
+    - intros op a b IHa IHb H. cbn [expr_side] in H. rewrite side_combine_rightish in H. apply andb_true_iff in H.
+      cbn [shift_cols eval_pexpr]. rewrite IHa, IHb by tauto. reflexivity.
+    - intros neg a b IHa IHb H. cbn [expr_side] in H. rewrite side_combine_rightish in H. apply andb_true_iff in H.
+      cbn [shift_cols eval_pexpr]. rewrite IHa, IHb by tauto. reflexivity.
+    - intros a b IHa IHb H. cbn [expr_side] in H. rewrite side_combine_rightish in H. apply andb_true_iff in H.
+      cbn [shift_cols eval_pexpr]. rewrite IHa, IHb by tauto. reflexivity.
+    - intros a b IHa IHb H. cbn [expr_side] in H. rewrite side_combine_rightish in H. apply andb_true_iff in H.
+      cbn [shift_cols eval_pexpr]. rewrite IHa, IHb by tauto. reflexivity.
+    - intros a IHa H. cbn [expr_side] in H. cbn [shift_cols eval_pexpr]. rewrite IHa by exact H. reflexivity.
+    - intros neg a IHa H. cbn [expr_side] in H. cbn [shift_cols eval_pexpr]. rewrite IHa by exact H. reflexivity.
+    - intros op w a b IHa IHb H. cbn [expr_side] in H. rewrite side_combine_rightish in H. apply andb_true_iff in H.
+      cbn [shift_cols eval_pexpr]. rewrite IHa, IHb by tauto. reflexivity.
+    - intros w a IHa H. cbn [expr_side] in H. cbn [shift_cols eval_pexpr]. rewrite IHa by exact H. reflexivity.
+    - intros bs els IHbs IHels H. cbn [expr_side] in H.
+      rewrite (case_side_ish rightish la bs _ side_combine_rightish) in H. apply andb_true_iff in H. destruct H as [Hb He].
+      cbn [shift_cols]. apply eval_case_ext; [|apply IHels, He].
+      clear IHels He. induction IHbs as [|[c t] bs [Hc Ht] _ IH]; [constructor|].
+      cbn [forallb fst snd] in Hb. apply andb_true_iff in Hb. destruct Hb as [Hct Hb]. apply andb_true_iff in Hct.
+      cbn [map]. constructor; [|apply IH, Hb]. cbn [fst snd] in *. split; [apply Hc|apply Ht]; tauto.
+    - intros neg a es IHa IHes H. cbn [expr_side] in H.
+      rewrite (list_side_ish rightish la es _ side_combine_rightish) in H. apply andb_true_iff in H. destruct H as [Hes Ha].
+      cbn [shift_cols eval_pexpr]. rewrite IHa by exact Ha. rewrite mapM_map.
+      rewrite (mapM_ext_in (eval_pexpr d ((l ++ r) :: en)) (fun x => eval_pexpr d (r :: en) (shift_cols la x)) es); [reflexivity|].
+      intros x Hx. rewrite Forall_forall in IHes. rewrite forallb_forall in Hes. apply IHes; [exact Hx|apply Hes, Hx].
+    - intros neg p H. discriminate H.
+    - intros neg a p _ H. discriminate H.
+    - intros p H. discriminate H.
+  Qed.
+End Locality.
+
+(* ---------------------------------------------------------------- conjunctions *)
+
+(* the collapsed value of a condition on the row x in the environment en *)
+Definition cv (d : db) (en : env) (c : pexpr) : row -> res bool :=
+  fun x => do v <- eval_pexpr d (x :: en) c; collapse3 v.
+Definition cvs (d : db) (en : env) (es : list pexpr) : row -> res bool :=
+  fun x => do bs <- mapM (fun e => cv d en e x) es; Ok (all_true bs).
+
+Section Conj.
+  Variables (d : db) (en : env).
+  Notation cvd := (cv d en).
+  Notation Qv x := (fun f => pure_of (cvd f) x).
+
+  Lemma cv_and a b x t :
+    cvd (PAnd a b) x = Ok t -> exists ta tb, cvd a x = Ok ta /\ cvd b x = Ok tb /\ t = ta && tb.
+  Proof.
+    unfold cv. cbn [eval_pexpr].
+    destruct (eval_pexpr d (x :: en) a) as [va|ea]; cbn [bind]; [|discriminate].
+    destruct (eval_pexpr d (x :: en) b) as [vb|eb]; cbn [bind]; [|discriminate].
+    destruct va as [|[|]|za|sa], vb as [|[|]|zb|sb]; cbn; intros H; try discriminate H;
+      injection H as <-; eexists; eexists; repeat split; reflexivity.
+  Qed.
+
+  Lemma cv_split x : forall c t, cvd c x = Ok t ->
+    (forall ci, In ci (split_conj c) -> exists ti, cvd ci x = Ok ti) /\
+    t = forallb (Qv x) (split_conj c).
+  Proof.
+    assert (Triv : forall c t, split_conj c = [c] -> cvd c x = Ok t ->
+              (forall ci, In ci (split_conj c) -> exists ti, cvd ci x = Ok ti) /\ t = forallb (Qv x) (split_conj c)).
+    { intros c t E H. rewrite E. split.
+      - intros ci [<-|[]]. eauto.
+      - cbn [forallb]. unfold pure_of. rewrite H. cbn [unres]. rewrite andb_true_r. reflexivity. }
+    apply (pexpr_ind2 (fun c => forall t, cvd c x = Ok t ->
+              (forall ci, In ci (split_conj c) -> exists ti, cvd ci x = Ok ti) /\ t = forallb (Qv x) (split_conj c)));
+      intros; try (apply Triv; [reflexivity|assumption]).
+    (* PAnd *)
+    destruct (cv_and _ _ _ _ H1) as [ta [tb [Ha [Hb ->]]]].
+    destruct (H _ Ha) as [Ta ->]. destruct (H0 _ Hb) as [Tb ->]. cbn [split_conj]. split.
+    - intros ci Hin. apply in_app_or in Hin. destruct Hin; eauto.
+    - rewrite forallb_app. reflexivity.
+  Qed.
+
+  Lemma cv_and_all x : forall fs t, cvd (and_all fs) x = Ok t ->
+    (forall f, In f fs -> exists ti, cvd f x = Ok ti) /\ t = forallb (Qv x) fs.
+  Proof.
+    induction fs as [|f fs IH]; intros t H.
+    - cbn in H. injection H as <-. split; [intros f []|reflexivity].
+    - destruct fs as [|g fs].
+      + cbn [and_all] in H. split.
+        * intros f' [<-|[]]. eauto.
+        * cbn [forallb]. unfold pure_of. rewrite H. cbn [unres]. rewrite andb_true_r. reflexivity.
+      + change (and_all (f :: g :: fs)) with (PAnd f (and_all (g :: fs))) in H.
+        destruct (cv_and _ _ _ _ H) as [ta [tb [Ha [Hb ->]]]].
+        destruct (IH _ Hb) as [Tb ->]. split.
+        * intros f' [<-|Hin]; [eauto|apply Tb, Hin].
+        * cbn [forallb]. assert (E : pure_of (cv d en f) x = ta) by (unfold pure_of; rewrite Ha; reflexivity).
+          rewrite E. reflexivity.
+  Qed.
+
+  Lemma cvs_ok es x t : cvs d en es x = Ok t ->
+    (forall e, In e es -> exists ti, cvd e x = Ok ti) /\ t = forallb (Qv x) es.
+  Proof.
+    unfold cvs. intros H. destruct (bind_ok _ _ _ H) as [bs [Hm Hb]]. injection Hb as <-. split.
+    - intros e He. exact (mapM_ok_total _ _ _ Hm e He).
+    - rewrite (mapM_ok_map _ false _ _ Hm). unfold all_true. clear. induction es as [|e es IH]; [reflexivity|].
+      cbn [map forallb]. rewrite IH. reflexivity.
+  Qed.
+End Conj.
+
+(* ---------------------------------------------------------------- the classification is a partition *)
+
+Definition xall (Qf : pexpr -> bool) (x : extracted) : bool :=
+  forallb Qf (x_lf x) && forallb Qf (x_rf x) && forallb Qf (x_arb x) && forallb (fun cm => Qf (cmp_expr cm)) (x_cmp x).
+
+Section Classify.
+  Variable Qf : pexpr -> bool.
+  Hypothesis Qflip_cmp : forall op a b, Qf (PCmp (flip_cmp op) b a) = Qf (PCmp op a b).
+  Hypothesis Qflip_dist : forall neg a b, Qf (PDistinct neg b a) = Qf (PDistinct neg a b).
+
+  Lemma as_comparison_all la e c : as_comparison la e = Some c -> Qf (cmp_expr c) = Qf e.
+  Proof.
+    unfold as_comparison. destruct e; try discriminate.
+    - destruct (expr_side la e1), (expr_side la e2); intros H; try discriminate H; injection H as <-;
+        cbn [cmp_expr flip_jop]; auto.
+    - destruct (expr_side la e1), (expr_side la e2); intros H; try discriminate H; injection H as <-;
+        cbn [cmp_expr flip_jop]; auto.
+  Qed.
+
+  Lemma classify_all k la acc e : xall Qf (classify k la acc e) = xall Qf acc && Qf e.
+  Proof.
+    unfold classify. destruct (expr_side la e).
+    - unfold xall, push_arb. cbn [x_lf x_rf x_arb x_cmp]. rewrite forallb_app. cbn [forallb]. btauto.
+    - destruct k; unfold xall, push_lf, push_arb; cbn [x_lf x_rf x_arb x_cmp]; rewrite forallb_app; cbn [forallb]; btauto.
+    - destruct k; unfold xall, push_rf, push_arb; cbn [x_lf x_rf x_arb x_cmp]; rewrite forallb_app; cbn [forallb]; btauto.
+    - destruct (as_comparison la e) as [c|] eqn:E.
+      + unfold xall, push_cmp. cbn [x_lf x_rf x_arb x_cmp]. rewrite forallb_app. cbn [forallb].
+        rewrite (as_comparison_all la e c E). btauto.
+      + unfold xall, push_arb. cbn [x_lf x_rf x_arb x_cmp]. rewrite forallb_app. cbn [forallb]. btauto.
+  Qed.
+
+  Lemma extract_fold_all k la es : forall acc,
+    xall Qf (fold_left (classify k la) es acc) = xall Qf acc && forallb Qf es.
+  Proof.
+    induction es as [|e es IH]; intros acc; cbn [fold_left forallb]; [rewrite andb_true_r; reflexivity|].
+    rewrite IH, classify_all. btauto.
+  Qed.
+
+  Lemma extract_all k la c : xall Qf (extract k la c) = forallb Qf (split_conj c).
+  Proof. unfold extract. rewrite extract_fold_all. reflexivity. Qed.
+End Classify.
+
+(* sides of the extracted parts *)
+Definition lf_ok (k : jkind) : bool := match k with JRight | JInner | JCross => true | _ => false end.
+Definition rf_ok (k : jkind) : bool := match k with JLeft | JInner | JCross => true | _ => false end.
+
+Definition xsides (la : nat) (k : jkind) (x : extracted) : Prop :=
+  Forall (fun f => expr_side la f = SLeft) (x_lf x) /\
+  Forall (fun f => expr_side la f = SRight) (x_rf x) /\
+  Forall (fun cm => match cm with (_, a, b) => expr_side la a = SLeft /\ expr_side la b = SRight end) (x_cmp x) /\
+  (lf_ok k = false -> x_lf x = []) /\ (rf_ok k = false -> x_rf x = []).
+
+Lemma Forall_snoc {A} (P : A -> Prop) l x : Forall P l -> P x -> Forall P (l ++ [x]).
+Proof. intros Hl Hx. apply Forall_app. split; [exact Hl|constructor; [exact Hx|constructor]]. Qed.
+
+Lemma as_comparison_sides la e o a b :
+  expr_side la e = SBoth -> as_comparison la e = Some (o, a, b) -> expr_side la a = SLeft /\ expr_side la b = SRight.
+Proof.
+  unfold as_comparison. destruct e; try discriminate; cbn [expr_side]; intros Hs H;
+    destruct (expr_side la e1) eqn:E1, (expr_side la e2) eqn:E2; try discriminate H; try discriminate Hs;
+    injection H as _ <- <-; auto.
+Qed.
+
+Lemma classify_sides la k acc e : xsides la k acc -> xsides la k (classify k la acc e).
+Proof.
+  intros [Hl [Hr [Hc [Hlk Hrk]]]]. unfold classify. destruct (expr_side la e) eqn:Es.
+  - unfold xsides, push_arb; cbn [x_lf x_rf x_arb x_cmp]. auto.
+  - destruct k; unfold xsides, push_lf, push_arb; cbn [x_lf x_rf x_arb x_cmp]; repeat split; auto;
+      try (apply Forall_snoc; assumption); try (intros H; discriminate H).
+  - destruct k; unfold xsides, push_rf, push_arb; cbn [x_lf x_rf x_arb x_cmp]; repeat split; auto;
+      try (apply Forall_snoc; assumption); try (intros H; discriminate H).
+  - destruct (as_comparison la e) as [[[o a] b]|] eqn:E.
+    + unfold xsides, push_cmp; cbn [x_lf x_rf x_arb x_cmp]. repeat split; auto.
+      apply Forall_snoc; [exact Hc|]. exact (as_comparison_sides la e o a b Es E).
+    + unfold xsides, push_arb; cbn [x_lf x_rf x_arb x_cmp]. auto.
+Qed.
+
+Lemma extract_sides la k c : xsides la k (extract k la c).
+Proof.
+  unfold extract. assert (H0 : xsides la k (mkX [] [] [] [])).
+  { unfold xsides; cbn. repeat split; auto. }
+  revert H0. generalize (mkX [] [] [] []). induction (split_conj c) as [|e es IH]; intros acc H; [exact H|].
+  cbn [fold_left]. apply IH. apply classify_sides, H.
+Qed.
+
+(* ---------------------------------------------------------------- flipped comparisons have the same value *)
+
+Lemma val_compare_flip a b : val_compare b a = option_map CompOpp (val_compare a b).
+Proof.
+  destruct a as [|[|]|x|s], b as [|[|]|y|t]; cbn; try reflexivity.
+  - rewrite Z.compare_antisym. reflexivity.
+  - rewrite lex_cmp_antisym. reflexivity.
+Qed.
+
+Lemma cmp_holds_flip op c : cmp_holds (flip_cmp op) (CompOpp c) = cmp_holds op c.
+Proof. destruct op, c; reflexivity. Qed.
+
+Lemma cmp3_flip op a b : cmp3 (flip_cmp op) b a = cmp3 op a b.
+Proof.
+  unfold cmp3. destruct a as [|ba|x|s], b as [|bb|y|t]; try reflexivity;
+    rewrite (val_compare_flip _ _);
+    match goal with |- context [val_compare ?u ?v] => destruct (val_compare u v) as [c|] end; cbn [option_map];
+    rewrite ?cmp_holds_flip; reflexivity.
+Qed.
+
+Lemma val_same_sym a b : val_same b a = val_same a b.
+Proof.
+  destruct (val_same a b) eqn:E.
+  - apply val_same_eq in E. subst. apply val_same_refl.
+  - destruct (val_same b a) eqn:E'; [|reflexivity]. apply val_same_eq in E'. subst. rewrite val_same_refl in E. discriminate.
+Qed.
+
+Lemma pure_cv_flip_cmp d en x op a b :
+  pure_of (cv d en (PCmp (flip_cmp op) b a)) x = pure_of (cv d en (PCmp op a b)) x.
+Proof.
+  unfold pure_of, cv. cbn [eval_pexpr].
+  destruct (eval_pexpr d (x :: en) a) as [va|ea], (eval_pexpr d (x :: en) b) as [vb|eb]; cbn [bind unres]; try reflexivity.
+  rewrite cmp3_flip. reflexivity.
+Qed.
+
+Lemma pure_cv_flip_dist d en x neg a b :
+  pure_of (cv d en (PDistinct neg b a)) x = pure_of (cv d en (PDistinct neg a b)) x.
+Proof.
+  unfold pure_of, cv. cbn [eval_pexpr].
+  destruct (eval_pexpr d (x :: en) a) as [va|ea], (eval_pexpr d (x :: en) b) as [vb|eb]; cbn [bind unres]; try reflexivity.
+  rewrite (val_same_sym va vb). reflexivity.
+Qed.
+
+(* ---------------------------------------------------------------- joins: Ok means every pair was evaluated *)
+
+Lemma rjoin_ok k a b la ra on out :
+  rjoin k a b la ra on = Ok out -> pairs_total on a b /\ out = pjoin k a b la ra (pure_of on).
+Proof.
+  intros H. assert (Ht : pairs_total on a b).
+  { unfold rjoin, join_rows in H. intros l r Hl Hr.
+    destruct k.
+    - destruct (bind_ok _ _ _ H) as [parts [Hm _]]. destruct (mapM_ok_total _ _ _ Hm l Hl) as [y Hy].
+      destruct (bind_ok _ _ _ Hy) as [ms [Hm2 _]]. destruct (mapM_ok_total _ _ _ Hm2 r Hr) as [z Hz].
+      destruct (on (l ++ r)); [eauto|discriminate].
+    - destruct (bind_ok _ _ _ H) as [parts [Hm _]]. destruct (mapM_ok_total _ _ _ Hm l Hl) as [y Hy].
+      destruct (bind_ok _ _ _ Hy) as [ms [Hm2 _]]. destruct (mapM_ok_total _ _ _ Hm2 r Hr) as [z Hz].
+      destruct (on (l ++ r)); [eauto|discriminate].
+    - destruct (bind_ok _ _ _ H) as [parts [Hm _]]. destruct (mapM_ok_total _ _ _ Hm l Hl) as [y Hy].
+      destruct (bind_ok _ _ _ Hy) as [ms [Hm2 _]]. destruct (mapM_ok_total _ _ _ Hm2 r Hr) as [z Hz].
+      destruct (on (l ++ r)); [eauto|discriminate].
+    - destruct (bind_ok _ _ _ H) as [parts [Hm _]]. destruct (mapM_ok_total _ _ _ Hm r Hr) as [y Hy].
+      destruct (bind_ok _ _ _ Hy) as [ms [Hm2 _]]. destruct (mapM_ok_total _ _ _ Hm2 l Hl) as [z Hz].
+      destruct (on (l ++ r)); [eauto|discriminate].
+    - destruct (bind_ok _ _ _ H) as [parts [Hm _]]. destruct (mapM_ok_total _ _ _ Hm l Hl) as [y Hy].
+      destruct (bind_ok _ _ _ Hy) as [ms [Hm2 _]]. destruct (mapM_ok_total _ _ _ Hm2 r Hr) as [z Hz]. eauto.
+    - destruct (bind_ok _ _ _ H) as [parts [Hm _]]. destruct (mapM_ok_total _ _ _ Hm l Hl) as [y Hy].
+      destruct (bind_ok _ _ _ Hy) as [ms [Hm2 _]]. destruct (mapM_ok_total _ _ _ Hm2 r Hr) as [z Hz]. eauto. }
+  split; [exact Ht|]. rewrite (rjoin_total k a b la ra on Ht) in H. congruence.
+Qed.
+
+Lemma join2_as_join_rows k L R la ra (on2 : row -> row -> res bool) (on : row -> res bool) :
+  (forall l r, In l L -> In r R -> on2 l r = on (l ++ r)) ->
+  join2 k L R la ra on2 = join_rows k L R la ra on.
+Proof.
+  intros H. destruct k; unfold join2, join_rows.
+  - f_equal. apply mapM_ext_in. intros l Hl. f_equal. apply mapM_ext_in. intros r Hr. rewrite H by assumption. reflexivity.
+  - f_equal. apply mapM_ext_in. intros l Hl. f_equal. apply mapM_ext_in. intros r Hr. rewrite H by assumption. reflexivity.
+  - f_equal. apply mapM_ext_in. intros l Hl. f_equal. apply mapM_ext_in. intros r Hr. rewrite H by assumption. reflexivity.
+  - f_equal. apply mapM_ext_in. intros r Hr. f_equal. apply mapM_ext_in. intros l Hl. rewrite H by assumption. reflexivity.
+  - f_equal. apply mapM_ext_in. intros l Hl. f_equal. apply mapM_ext_in. intros r Hr. apply H; assumption.
+  - f_equal. apply mapM_ext_in. intros l Hl. f_equal. apply mapM_ext_in. intros r Hr. apply H; assumption.
+Qed.
+
+(* ---------------------------------------------------------------- the pure identity behind plan_join *)
+
+Lemma pfilter_true_id (p : list value -> bool) a : (forall x, p x = true) -> pfilter p a = a.
+Proof.
+  intros H. unfold pfilter. induction a as [|x a IH]; [reflexivity|]. cbn [filter]. rewrite H, IH. reflexivity.
+Qed.
+
+Lemma arity_pfilter la p a : arity la a -> arity la (pfilter p a).
+Proof. apply arity_filter. Qed.
+
+Lemma pure_extract k la ra L R (LFb RFb REST lfp rfp : list value -> bool) :
+  reads_left la LFb lfp -> reads_right la RFb rfp -> arity la L ->
+  (lf_ok k = false -> (forall x, LFb x = true) /\ (forall x, lfp x = true)) ->
+  (rf_ok k = false -> (forall x, RFb x = true) /\ (forall x, rfp x = true)) ->
+  pjoin k L R la ra (fun x => LFb x && RFb x && REST x) = pjoin k (pfilter lfp L) (pfilter rfp R) la ra REST.
+Proof.
+  intros Hl Hr Ha Hlk Hrk.
+  destruct k.
+  - (* cross = inner *)
+    change (pjoin JCross) with (pjoin JInner).
+    rewrite <- (pjoin_inner_filter_right la ra RFb rfp REST (pfilter lfp L) R Hr (arity_pfilter la lfp L Ha)).
+    rewrite <- (pjoin_inner_filter_left la ra LFb lfp REST L R Hl Ha).
+    rewrite !pjoin_inner_filter_into_cond. apply pjoin_ext_in. intros l r _ _. btauto.
+  - rewrite <- (pjoin_inner_filter_right la ra RFb rfp REST (pfilter lfp L) R Hr (arity_pfilter la lfp L Ha)).
+    rewrite <- (pjoin_inner_filter_left la ra LFb lfp REST L R Hl Ha).
+    rewrite !pjoin_inner_filter_into_cond. apply pjoin_ext_in. intros l r _ _. btauto.
+  - (* left *)
+    destruct (Hlk eq_refl) as [H1 H2]. rewrite (pfilter_true_id lfp L H2).
+    rewrite <- (pjoin_left_on_right la ra RFb rfp REST L R Hr Ha).
+    apply pjoin_ext_in. intros l r _ _. rewrite H1. btauto.
+  - (* right *)
+    destruct (Hrk eq_refl) as [H1 H2]. rewrite (pfilter_true_id rfp R H2).
+    rewrite <- (pjoin_right_on_left la ra LFb lfp REST L R Hl Ha).
+    apply pjoin_ext_in. intros l r _ _. rewrite H1. btauto.
+  - destruct (Hlk eq_refl) as [H1 H2]. destruct (Hrk eq_refl) as [H3 H4].
+    rewrite (pfilter_true_id lfp L H2), (pfilter_true_id rfp R H4).
+    apply pjoin_ext_in. intros l r _ _. rewrite H1, H3. reflexivity.
+  - destruct (Hlk eq_refl) as [H1 H2]. destruct (Hrk eq_refl) as [H3 H4].
+    rewrite (pfilter_true_id lfp L H2), (pfilter_true_id rfp R H4).
+    apply pjoin_ext_in. intros l r _ _. rewrite H1, H3. reflexivity.
+Qed.
+
+(* ---------------------------------------------------------------- the extracted join on rows *)
+
+Lemma forallb_map {A B} (f : B -> bool) (g : A -> B) l : forallb f (map g l) = forallb (fun x => f (g x)) l.
+Proof. induction l as [|x l IH]; [reflexivity|]. cbn [map forallb]. rewrite IH. reflexivity. Qed.
+
+Lemma forallb_ext_in {A} (p q : A -> bool) l : (forall x, In x l -> p x = q x) -> forallb p l = forallb q l.
+Proof.
+  induction l as [|x l IH]; intros H; [reflexivity|]. cbn [forallb].
+  rewrite (H x (or_introl eq_refl)), IH; [reflexivity|]. intros y Hy. apply H. right. exact Hy.
+Qed.
+
+Lemma cond_eval_eq d en la l r o a b :
+  length l = la -> expr_side la a = SLeft -> expr_side la b = SRight ->
+  (do u <- eval_pexpr d (l :: en) a; do v <- eval_pexpr d (r :: en) (shift_cols la b); jop_holds o u v)
+  = cv d en (cmp_expr (o, a, b)) (l ++ r).
+Proof.
+  intros Hl Ha Hb. unfold cv.
+  assert (Ea := loc_left d en la l r Hl a). rewrite Ha in Ea. specialize (Ea eq_refl).
+  assert (Eb := loc_right d en la l r Hl b). rewrite Hb in Eb. specialize (Eb eq_refl).
+  destruct o as [op|neg]; cbn [cmp_expr eval_pexpr]; rewrite Ea, Eb;
+    destruct (eval_pexpr d (l :: en) a) as [u|e1]; cbn [bind]; try reflexivity;
+    destruct (eval_pexpr d (r :: en) (shift_cols la b)) as [v|e2]; cbn [bind]; reflexivity.
+Qed.
+
+Section ExtractAgree.
+  Variables (d : db) (en : env) (k : jkind) (c : pexpr) (la ra : nat) (pl pr : lplan) (L R : list (list value)).
+  Hypothesis HL : eval_lplan d en pl = Ok L.
+  Hypothesis HR : eval_lplan d en pr = Ok R.
+  Hypothesis Ha : arity la L.
+
+  Let X := extract k la c.
+  Let Q (x : list value) := fun f => pure_of (cv d en f) x.
+  Let lfp (l : list value) := forallb (Q l) (x_lf X).
+  Let rfp (r : list value) := forallb (fun f => Q r (shift_cols la f)) (x_rf X).
+  Let LFb (x : list value) := forallb (Q x) (x_lf X).
+  Let RFb (x : list value) := forallb (Q x) (x_rf X).
+  Let ARBb (x : list value) := forallb (Q x) (x_arb X).
+  Let CMPb (x : list value) := forallb (fun cm => Q x (cmp_expr cm)) (x_cmp X).
+
+  Let Hsides : xsides la k X := extract_sides la k c.
+
+  Lemma xa_reads_left : reads_left la LFb lfp.
+  Proof.
+    intros x y Hx. unfold LFb, lfp. apply forallb_ext_in. intros f Hf.
+    destruct Hsides as [Hl _]. rewrite Forall_forall in Hl. specialize (Hl f Hf).
+    unfold Q, pure_of, cv. rewrite (loc_left d en la x y Hx f); [reflexivity|]. rewrite Hl. reflexivity.
+  Qed.
+
+  Lemma xa_reads_right : reads_right la RFb rfp.
+  Proof.
+    intros x y Hx. unfold RFb, rfp. apply forallb_ext_in. intros f Hf.
+    destruct Hsides as [_ [Hr _]]. rewrite Forall_forall in Hr. specialize (Hr f Hf).
+    unfold Q, pure_of, cv. rewrite (loc_right d en la x y Hx f); [reflexivity|]. rewrite Hr. reflexivity.
+  Qed.
+
+  Lemma xa_left_eval L0 :
+    eval_lplan d en (match x_lf X with [] => pl | p :: l0 => LFilter (and_all (p :: l0)) pl end) = Ok L0 ->
+    L0 = pfilter lfp L.
+  Proof.
+    unfold lfp. destruct (x_lf X) as [|f fs] eqn:E.
+    - rewrite HL. intros H. injection H as <-. symmetry. apply pfilter_true_id. reflexivity.
+    - cbn [eval_lplan]. rewrite HL. cbn [bind]. intros H. apply rfilter_ok in H. destruct H as [Ht ->].
+      apply pfilter_ext_in. intros x Hx. destruct (Ht x Hx) as [t Htx].
+      unfold pure_of at 1. rewrite Htx. cbn [unres].
+      exact (proj2 (cv_and_all d en x (f :: fs) t Htx)).
+  Qed.
+
+  Lemma xa_right_eval R0 :
+    eval_lplan d en (match x_rf X with [] => pr | p :: l0 => LFilter (and_all (map (shift_cols la) (p :: l0))) pr end) = Ok R0 ->
+    R0 = pfilter rfp R.
+  Proof.
+    unfold rfp. destruct (x_rf X) as [|f fs] eqn:E.
+    - rewrite HR. intros H. injection H as <-. symmetry. apply pfilter_true_id. reflexivity.
+    - cbn [eval_lplan]. rewrite HR. cbn [bind]. intros H. apply rfilter_ok in H. destruct H as [Ht ->].
+      apply pfilter_ext_in. intros x Hx. destruct (Ht x Hx) as [t Htx].
+      unfold pure_of at 1. rewrite Htx. cbn [unres].
+      rewrite (proj2 (cv_and_all d en x _ t Htx)). apply forallb_map.
+  Qed.
+
+  (* the reference result, in pure form over the filtered inputs *)
+  Lemma xa_spec out' :
+    rjoin k L R la ra (cv d en c) = Ok out' ->
+    out' = pjoin k (pfilter lfp L) (pfilter rfp R) la ra (fun x => ARBb x && CMPb x).
+  Proof.
+    intros Hs. apply rjoin_ok in Hs. destruct Hs as [Ht ->].
+    rewrite <- (pure_extract k la ra L R LFb RFb (fun x => ARBb x && CMPb x) lfp rfp xa_reads_left xa_reads_right Ha).
+    - apply pjoin_ext_in. intros l r Hl Hr. destruct (Ht l r Hl Hr) as [t Hc].
+      unfold pure_of at 1. rewrite Hc. cbn [unres].
+      rewrite (proj2 (cv_split d en (l ++ r) c t Hc)).
+      change (forallb (Q (l ++ r)) (split_conj c) = LFb (l ++ r) && RFb (l ++ r) && (ARBb (l ++ r) && CMPb (l ++ r))).
+      rewrite <- (extract_all (Q (l ++ r)) (pure_cv_flip_cmp d en (l ++ r)) (pure_cv_flip_dist d en (l ++ r)) k la c).
+      fold X. unfold xall, LFb, RFb, ARBb, CMPb. btauto.
+    - intros Hk. destruct Hsides as [_ [_ [_ [Hn _]]]]. unfold LFb, lfp. rewrite (Hn Hk). split; reflexivity.
+    - intros Hk. destruct Hsides as [_ [_ [_ [_ Hn]]]]. unfold RFb, rfp. rewrite (Hn Hk). split; reflexivity.
+  Qed.
+
+  Lemma xa_cmp_join l' r' L0 R0 out0 :
+    eval_lplan d en l' = Ok L0 -> eval_lplan d en r' = Ok R0 -> arity la L0 ->
+    eval_lplan d en (LComparisonJoin k (map (fun cm => match cm with (o, a, b) => (o, a, shift_cols la b) end) (x_cmp X))
+                                     la ra l' r') = Ok out0 ->
+    out0 = pjoin k L0 R0 la ra CMPb.
+  Proof.
+    intros Hl Hr Ha0. cbn [eval_lplan]. rewrite Hl, Hr. cbn [bind]. intros H.
+    destruct (bind_ok _ _ _ H) as [LK [_ H1]]. destruct (bind_ok _ _ _ H1) as [RK [_ H2]]. clear H H1.
+    rewrite (join2_as_join_rows k L0 R0 la ra _ (cvs d en (map cmp_expr (x_cmp X)))) in H2.
+    - change (rjoin k L0 R0 la ra (cvs d en (map cmp_expr (x_cmp X))) = Ok out0) in H2.
+      apply rjoin_ok in H2. destruct H2 as [Ht ->]. apply pjoin_ext_in. intros l r Hl0 Hr0.
+      destruct (Ht l r Hl0 Hr0) as [t Hc]. unfold pure_of at 1. rewrite Hc. cbn [unres].
+      rewrite (proj2 (cvs_ok d en _ _ t Hc)). unfold CMPb. apply forallb_map.
+    - intros l r Hl0 Hr0. unfold cvs. rewrite !mapM_map. f_equal. apply mapM_ext_in. intros [[o a] b] Hin.
+      destruct Hsides as [_ [_ [Hc _]]]. rewrite Forall_forall in Hc. destruct (Hc _ Hin) as [Hsa Hsb].
+      unfold arity in Ha0. rewrite Forall_forall in Ha0.
+      apply cond_eval_eq; [apply Ha0, Hl0|exact Hsa|exact Hsb].
+  Qed.
+
+  Theorem extract_join_agree out out' :
+    eval_lplan d en (extract_join k c la ra pl pr) = Ok out ->
+    rjoin k L R la ra (cv d en c) = Ok out' ->
+    out = out'.
+  Proof.
+    intros Hp Hs. rewrite (xa_spec out' Hs). clear Hs.
+    unfold extract_join in Hp. fold X in Hp.
+    set (l' := match x_lf X with [] => pl | p :: l0 => LFilter (and_all (p :: l0)) pl end) in *.
+    set (r' := match x_rf X with [] => pr | p :: l0 => LFilter (and_all (map (shift_cols la) (p :: l0))) pr end) in *.
+    assert (Hl' : forall L0, eval_lplan d en l' = Ok L0 -> L0 = pfilter lfp L) by (intros L0; apply xa_left_eval).
+    assert (Hr' : forall R0, eval_lplan d en r' = Ok R0 -> R0 = pfilter rfp R) by (intros R0; apply xa_right_eval).
+    destruct (is_nil (x_cmp X) || negb (is_inner k) && negb (is_nil (x_arb X))) eqn:Eu.
+    - (* ArbitraryJoin *)
+      cbn [eval_lplan] in Hp.
+      destruct (bind_ok _ _ _ Hp) as [L0 [HL0 Hp1]]. destruct (bind_ok _ _ _ Hp1) as [R0 [HR0 Hp2]].
+      rewrite (Hl' L0 HL0), (Hr' R0 HR0) in Hp2.
+      change (rjoin k (pfilter lfp L) (pfilter rfp R) la ra (cv d en (and_all (x_arb X ++ map cmp_expr (x_cmp X)))) = Ok out) in Hp2.
+      apply rjoin_ok in Hp2. destruct Hp2 as [Ht ->]. apply pjoin_ext_in. intros l r Hl0 Hr0.
+      destruct (Ht l r Hl0 Hr0) as [t Hc]. unfold pure_of at 1. rewrite Hc. cbn [unres].
+      rewrite (proj2 (cv_and_all d en _ _ t Hc)). rewrite forallb_app, forallb_map. reflexivity.
+    - (* ComparisonJoin [+ Filter] *)
+      apply orb_false_iff in Eu. destruct Eu as [Ecmp Earb].
+      assert (Hj : forall out0,
+                 eval_lplan d en (LComparisonJoin k (map (fun cm => match cm with (o, a, b) => (o, a, shift_cols la b) end) (x_cmp X))
+                                                  la ra l' r') = Ok out0 ->
+                 out0 = pjoin k (pfilter lfp L) (pfilter rfp R) la ra CMPb).
+      { intros out0 H0. pose proof H0 as H0'. cbn [eval_lplan] in H0'.
+        destruct (bind_ok _ _ _ H0') as [L0 [HL0 H1]]. destruct (bind_ok _ _ _ H1) as [R0 [HR0 _]].
+        rewrite <- (Hl' L0 HL0), <- (Hr' R0 HR0).
+        apply (xa_cmp_join l' r' L0 R0 out0 HL0 HR0); [|exact H0].
+        rewrite (Hl' L0 HL0). apply arity_pfilter, Ha. }
+      assert (Ecase : x_arb X = [] \/ exists f fs, x_arb X = f :: fs).
+      { destruct (x_arb X) as [|f fs]; [left; reflexivity|right; eauto]. }
+      destruct Ecase as [Ea|[f [fs Ea]]]; rewrite Ea in Hp.
+      + rewrite (Hj out Hp). apply pjoin_ext_in. intros l r _ _. unfold ARBb. rewrite Ea. reflexivity.
+      + cbn [eval_lplan] in Hp. destruct (bind_ok _ _ _ Hp) as [out0 [H0 Hf]].
+        rewrite (Hj out0 H0) in Hf. apply rfilter_ok in Hf. destruct Hf as [Ht ->].
+        assert (Hk : is_inner k = true).
+        { apply andb_false_iff in Earb. destruct Earb as [E|E]; [apply negb_false_iff in E; exact E|].
+          rewrite Ea in E. cbn in E. discriminate E. }
+        rewrite (pfilter_ext_in _ ARBb).
+        * destruct k; try discriminate Hk.
+          -- change (pjoin JCross) with (pjoin JInner). rewrite pjoin_inner_filter_into_cond.
+             apply pjoin_ext_in. intros l r _ _. btauto.
+          -- rewrite pjoin_inner_filter_into_cond. apply pjoin_ext_in. intros l r _ _. btauto.
+        * intros x Hx. destruct (Ht x Hx) as [t Hc].
+          change (cv d en (and_all (f :: fs)) x = Ok t) in Hc.
+          change (pure_of (cv d en (and_all (f :: fs))) x = ARBb x). unfold pure_of. rewrite Hc. cbn [unres].
+          rewrite (proj2 (cv_and_all d en _ _ t Hc)). unfold ARBb. rewrite Ea. reflexivity.
+  Qed.
+End ExtractAgree.
+
+
+(* ---------------------------------------------------------------- widths of the rows of FROM items *)
+
+Lemma mapM_length {A B} (f : A -> res B) : forall l ys, mapM f l = Ok ys -> length ys = length l.
+Proof.
+  induction l as [|x l IH]; intros ys H.
+  - cbn in H. injection H as <-. reflexivity.
+  - rewrite mapM_cons in H. destruct (bind_ok _ _ _ H) as [y [_ H1]]. destruct (bind_ok _ _ _ H1) as [ys' [H2 H3]].
+    injection H3 as <-. cbn [length]. rewrite (IH _ H2). reflexivity.
+Qed.
+
+Lemma mapM_Forall_out {A B} (f : A -> res B) (P : B -> Prop) : forall l ys,
+  mapM f l = Ok ys -> (forall x y, In x l -> f x = Ok y -> P y) -> Forall P ys.
+Proof.
+  induction l as [|x l IH]; intros ys H HP.
+  - cbn in H. injection H as <-. constructor.
+  - rewrite mapM_cons in H. destruct (bind_ok _ _ _ H) as [y [Hy H1]]. destruct (bind_ok _ _ _ H1) as [ys' [H2 H3]].
+    injection H3 as <-. constructor; [apply (HP x y); [left; reflexivity|exact Hy]|].
+    apply IH; [exact H2|]. intros x' y' Hin. apply HP. right. exact Hin.
+Qed.
+
+Lemma arity_incl n (a b : list (list value)) : incl a b -> arity n b -> arity n a.
+Proof. unfold arity. rewrite !Forall_forall. intros Hi Hb x Hx. apply Hb, Hi, Hx. Qed.
+
+Lemma arity_app n (a b : list (list value)) : arity n a -> arity n b -> arity n (a ++ b).
+Proof. unfold arity. intros. apply Forall_app. split; assumption. Qed.
+
+Lemma dedup_incl l : incl (dedup_rows l) l.
+Proof. intros x Hx. apply dedup_rows_In. exact Hx. Qed.
+
+Lemma nulls_length n : length (nulls n) = n.
+Proof. unfold nulls. apply repeat_length. Qed.
+
+Lemma pjoin_arity k la ra a b on :
+  arity la a -> arity ra b ->
+  arity (match k with JSemi | JAnti => la | _ => la + ra end) (pjoin k a b la ra on).
+Proof.
+  unfold arity. rewrite !Forall_forall. intros Ha Hb x Hx.
+  assert (Hm : forall l, In l a -> forall y, In y (matches on l b) -> length y = la + ra).
+  { intros l Hl y Hy. apply matches_In in Hy. destruct Hy as [r [Hr [-> _]]]. rewrite app_length, (Ha l Hl), (Hb r Hr). reflexivity. }
+  destruct k; cbn [pjoin] in Hx; apply in_flat_map in Hx; destruct Hx as [z [Hz Hx]].
+  - exact (Hm z Hz x Hx).
+  - exact (Hm z Hz x Hx).
+  - destruct (matches on z b) as [|m ms] eqn:Em.
+    + destruct Hx as [<-|[]]. rewrite app_length, nulls_length, (Ha z Hz). reflexivity.
+    + rewrite <- Em in Hx. exact (Hm z Hz x Hx).
+  - destruct (flat_map (fun l => if on (l ++ z) then [l ++ z] else []) a) as [|m ms] eqn:Em.
+    + destruct Hx as [<-|[]]. rewrite app_length, nulls_length, (Hb z Hz). reflexivity.
+    + rewrite <- Em in Hx. apply in_flat_map in Hx. destruct Hx as [l [Hl Hx]].
+      destruct (on (l ++ z)); [|destruct Hx]. destruct Hx as [<-|[]]. rewrite app_length, (Ha l Hl), (Hb z Hz). reflexivity.
+  - destruct (existsb _ b); [|destruct Hx]. destruct Hx as [<-|[]]. apply Ha, Hz.
+  - destruct (existsb _ b); [destruct Hx|]. destruct Hx as [<-|[]]. apply Ha, Hz.
+Qed.
+
+Lemma join_rows_arity k la ra a b on out :
+  arity la a -> arity ra b -> join_rows k a b la ra on = Ok out ->
+  arity (match k with JSemi | JAnti => la | _ => la + ra end) out.
+Proof.
+  intros Ha Hb H. change (rjoin k a b la ra on = Ok out) in H. apply rjoin_ok in H. destruct H as [_ ->].
+  apply pjoin_arity; assumption.
+Qed.
+
+Lemma db_arity_table sch d t n rows :
+  db_arity_ok sch d = true -> nth_error sch t = Some n -> nth_error d t = Some rows -> arity n rows.
+Proof.
+  unfold db_arity_ok. intros H Hs Hd. apply andb_true_iff in H. destruct H as [_ H].
+  rewrite forallb_forall in H.
+  assert (Hin : In (n, rows) (combine sch d)).
+  { clear H. revert t d Hs Hd. induction sch as [|s sch IH]; intros [|t] d Hs Hd; try discriminate.
+    - destruct d as [|r d]; [discriminate|]. cbn in Hs, Hd. injection Hs as <-. injection Hd as <-. left. reflexivity.
+    - destruct d as [|r d]; [discriminate|]. cbn in Hs, Hd. right. apply (IH t d Hs Hd). }
+  specialize (H _ Hin). cbn [fst snd] in H. rewrite forallb_forall in H.
+  unfold arity. apply Forall_forall. intros r Hr. apply Nat.eqb_eq. apply H, Hr.
+Qed.
+
+Lemma slice_incl off lim (l : list (list value)) : incl (slice_rows off lim l) l.
+Proof. apply (rlimit_incl off lim l). Qed.
+
+Theorem arity_sound sch d : db_arity_ok sch d = true ->
+  (forall q n, query_arity sch q = Some n -> forall en rows, eval_query d en q = Ok rows -> arity n rows) /\
+  (forall f n, from_arity sch f = Some n -> forall en rows, eval_from d en f = Ok rows -> arity n rows).
+Proof.
+  intros Hd.
+  assert (G := sql_ind3 (fun _ => True)
+            (fun q => forall n, query_arity sch q = Some n -> forall en rows, eval_query d en q = Ok rows -> arity n rows)
+            (fun f => forall n, from_arity sch f = Some n -> forall en rows, eval_from d en f = Ok rows -> arity n rows)).
+  cbv beta in G. destruct G as [_ [GQ GF]]; try (intros; exact I); [..|split; assumption].
+  - (* QTable *) intros t n Hn en rows H. cbn [query_arity] in Hn. cbn [eval_query] in H.
+    destruct (nth_error d t) as [rs|] eqn:E; [|discriminate]. injection H as <-. exact (db_arity_table sch d t n rs Hd Hn E).
+  - (* QValues *) intros rows _ n Hn en out H. cbn [query_arity] in Hn. cbn [eval_query] in H.
+    destruct rows as [|r rest]; [discriminate|].
+    destruct (forallb (fun x => Nat.eqb (length x) (length r)) rest) eqn:E; [|discriminate]. injection Hn as <-.
+    unfold arity. apply (mapM_Forall_out _ _ _ _ H). intros x y Hin Hy. rewrite (mapM_length _ _ _ Hy).
+    destruct Hin as [<-|Hin]; [reflexivity|]. rewrite forallb_forall in E. apply Nat.eqb_eq, E, Hin.
+  - (* QSelect *) intros f wh grp hav sel dis _ _ _ _ _ n Hn en out H. cbn [query_arity] in Hn. injection Hn as <-.
+    rewrite eval_select_staged in H. destruct (bind_ok _ _ _ H) as [rows2 [_ H1]]. destruct (bind_ok _ _ _ H1) as [o [Ho H2]].
+    injection H2 as <-.
+    assert (Hoa : arity (length sel) o).
+    { unfold arity. apply (mapM_Forall_out _ _ _ _ Ho). intros x y _ Hy. apply (mapM_length _ _ _ Hy). }
+    destruct dis; [|exact Hoa]. apply (arity_incl _ _ o); [apply dedup_incl|exact Hoa].
+  - (* QUnion *) intros all a b IHa IHb n Hn en out H. cbn [query_arity] in Hn. cbn [eval_query] in H.
+    destruct (query_arity sch a) as [x|] eqn:Ea; [|discriminate]. destruct (query_arity sch b) as [y|] eqn:Eb; [|discriminate].
+    destruct (Nat.eqb x y) eqn:E; [|discriminate]. injection Hn as <-. apply Nat.eqb_eq in E. subst y.
+    destruct (bind_ok _ _ _ H) as [xa [Hxa H1]]. destruct (bind_ok _ _ _ H1) as [xb [Hxb H2]]. injection H2 as <-.
+    pose proof (arity_app x xa xb (IHa x eq_refl en xa Hxa) (IHb x eq_refl en xb Hxb)) as Hab.
+    destruct all; [exact Hab|]. apply (arity_incl _ _ (xa ++ xb)); [apply dedup_incl|exact Hab].
+  - (* QOrderLimit *) intros q keys lim off IHq n Hn en out H. cbn [query_arity] in Hn. cbn [eval_query] in H.
+    destruct (bind_ok _ _ _ H) as [rows [Hr H1]]. injection H1 as <-.
+    apply (arity_incl _ _ (sort_by keys rows)); [apply slice_incl|].
+    apply (arity_incl _ _ rows); [|exact (IHq n Hn en rows Hr)].
+    intros x Hx. apply (Permutation_in x (RelProofs.sort_by_perm keys rows)). exact Hx.
+  - (* FQuery *) intros q IHq n Hn en rows H. exact (IHq n Hn en rows H).
+  - (* FJoin *) intros k l r on la ra IHl IHr _ n Hn en out H. cbn [from_arity] in Hn. cbn [eval_from] in H.
+    destruct (opt_eqb (from_arity sch l) (Some la) && opt_eqb (from_arity sch r) (Some ra)) eqn:E; [|discriminate].
+    injection Hn as <-. apply andb_true_iff in E. destruct E as [El Er].
+    unfold opt_eqb in El, Er. destruct (from_arity sch l) as [x|] eqn:Fl; [|discriminate].
+    destruct (from_arity sch r) as [y|] eqn:Fr; [|discriminate]. apply Nat.eqb_eq in El, Er. subst x y.
+    destruct (bind_ok _ _ _ H) as [L [HL H1]]. destruct (bind_ok _ _ _ H1) as [R [HR H2]].
+    exact (join_rows_arity k la ra L R _ out (IHl la eq_refl en L HL) (IHr ra eq_refl en R HR) H2).
+  - (* FLateral *) intros k l r on ra IHl IHr _ n Hn en out H. cbn [from_arity] in Hn. cbn [eval_from] in H.
+    destruct (from_arity sch l) as [la|] eqn:Fl; [|discriminate]. destruct (query_arity sch r) as [rb|] eqn:Fr; [|discriminate].
+    destruct (Nat.eqb rb ra) eqn:E; [|discriminate]. injection Hn as <-. apply Nat.eqb_eq in E. subst rb.
+    destruct (bind_ok _ _ _ H) as [L [HL H1]]. destruct (bind_ok _ _ _ H1) as [parts [Hp H2]]. injection H2 as <-.
+    pose proof (IHl la eq_refl en L HL) as HLa.
+    assert (Hparts : Forall (arity (match k with JSemi | JAnti => la | _ => la + ra end)) parts).
+    { apply (mapM_Forall_out _ _ _ _ Hp). intros lr y Hin Hy. destruct (bind_ok _ _ _ Hy) as [R [HR Hj]].
+      unfold arity in HLa. rewrite Forall_forall in HLa. rewrite (HLa lr Hin) in Hj.
+      eapply (join_rows_arity k la ra [lr] R); [|exact (IHr ra eq_refl (lr :: en) R HR)|exact Hj].
+      constructor; [apply HLa, Hin|constructor]. }
+    unfold arity. clear - Hparts. induction Hparts as [|p ps Hp _ IH]; [constructor|]. cbn [concat].
+    apply Forall_app. split; assumption.
+Qed.
+
+
+(* ---------------------------------------------------------------- instance 2: the engine's planner *)
+
+Definition wf_none : fromc -> fromc -> expr -> nat -> nat -> bool := fun _ _ _ _ _ => false.
+
+Lemma nosub_wf : forall e, nosub e = true -> wf_expr wf_none e = true.
+Proof.
+  assert (G := sql_ind3 (fun e => nosub e = true -> wf_expr wf_none e = true) (fun _ => True) (fun _ => True)).
+  cbv beta in G. destruct G as [GE _]; try (intros; exact I); [..|exact GE].
+  - reflexivity.
+  - reflexivity.
+  - intros op a b Ha Hb H. change (nosub a && nosub b = true) in H. apply andb_true_iff in H.
+    change (wf_expr wf_none a && wf_expr wf_none b = true). rewrite Ha, Hb by tauto. reflexivity.
+  - intros neg a b Ha Hb H. change (nosub a && nosub b = true) in H. apply andb_true_iff in H.
+    change (wf_expr wf_none a && wf_expr wf_none b = true). rewrite Ha, Hb by tauto. reflexivity.
+  - intros a b Ha Hb H. change (nosub a && nosub b = true) in H. apply andb_true_iff in H.
+    change (wf_expr wf_none a && wf_expr wf_none b = true). rewrite Ha, Hb by tauto. reflexivity.
+  - intros a b Ha Hb H. change (nosub a && nosub b = true) in H. apply andb_true_iff in H.
+    change (wf_expr wf_none a && wf_expr wf_none b = true). rewrite Ha, Hb by tauto. reflexivity.
+  - intros a Ha H. exact (Ha H).
+  - intros neg a Ha H. exact (Ha H).
+  - intros op w a b Ha Hb H. change (nosub a && nosub b = true) in H. apply andb_true_iff in H.
+    change (wf_expr wf_none a && wf_expr wf_none b = true). rewrite Ha, Hb by tauto. reflexivity.
+  - intros w a Ha H. exact (Ha H).
+  - intros bs els Hbs Hels H.
+    change (forallb (fun ct => match ct with (c, t) => nosub c && nosub t end) bs && nosub els = true) in H.
+    apply andb_true_iff in H. destruct H as [Hb He].
+    change (forallb (fun ct => match ct with (c, t) => wf_expr wf_none c && wf_expr wf_none t end) bs && wf_expr wf_none els = true).
+    rewrite (Hels He), andb_true_r. apply forallb_forall. intros [c t] Hin. rewrite Forall_forall in Hbs.
+    rewrite forallb_forall in Hb. specialize (Hb _ Hin). cbn beta iota in Hb. apply andb_true_iff in Hb.
+    destruct (Hbs _ Hin) as [Hc Ht]. cbn [fst snd] in *. rewrite Hc, Ht by tauto. reflexivity.
+  - intros neg a es Ha Hes H. change (nosub a && forallb nosub es = true) in H. apply andb_true_iff in H. destruct H as [H1 H2].
+    change (wf_expr wf_none a && forallb (wf_expr wf_none) es = true). rewrite (Ha H1). cbn [andb].
+    apply forallb_forall. intros x Hx. rewrite Forall_forall in Hes. rewrite forallb_forall in H2. apply Hes; [exact Hx|apply H2, Hx].
+  - intros neg q _ H. discriminate H.
+  - intros neg a q _ _ H. discriminate H.
+  - intros q _ H. discriminate H.
+Qed.
+
+Lemma nosub_plan_exact mk e : nosub e = true ->
+  forall d en, eval_pexpr d en (plan_expr mk e) = eval_expr d en e.
+Proof.
+  intros Hn d en.
+  pose proof (plan_gen_correct (fun A x y => x = y) (fun A x => eq_refl) (@eq_bind) mk wf_none (fun _ => True)) as G.
+  cbv beta in G.
+  assert (Hj : forall d en k e la ra fl fr pl pr, True -> wf_none fl fr e la ra = true ->
+     eval_lplan d en pl = eval_from d en fl -> eval_lplan d en pr = eval_from d en fr ->
+     (forall x, eval_pexpr d (x :: en) (plan_expr mk e) = eval_expr d (x :: en) e) ->
+     eval_lplan d en (mk k (plan_expr mk e) la ra pl pr) = eval_from d en (FJoin k fl fr (Some e) la ra)).
+  { intros ? ? ? ? ? ? ? ? ? ? _ H. discriminate H. }
+  destruct (G Hj) as [GE _]. apply GE; [apply nosub_wf, Hn|exact I].
+Qed.
+
+Lemma extract_join_children_ok d en k c la ra pl pr out :
+  eval_lplan d en (extract_join k c la ra pl pr) = Ok out ->
+  exists L R, eval_lplan d en pl = Ok L /\ eval_lplan d en pr = Ok R.
+Proof.
+  unfold extract_join.
+  set (l' := match x_lf (extract k la c) with [] => pl | p :: l0 => LFilter (and_all (p :: l0)) pl end).
+  set (r' := match x_rf (extract k la c) with [] => pr | p :: l0 => LFilter (and_all (map (shift_cols la) (p :: l0))) pr end).
+  assert (Hl : forall L0, eval_lplan d en l' = Ok L0 -> exists L, eval_lplan d en pl = Ok L).
+  { subst l'. destruct (x_lf (extract k la c)); intros L0 H; [eauto|].
+    cbn [eval_lplan] in H. destruct (bind_ok _ _ _ H) as [L [HL _]]. eauto. }
+  assert (Hr : forall R0, eval_lplan d en r' = Ok R0 -> exists R, eval_lplan d en pr = Ok R).
+  { subst r'. destruct (x_rf (extract k la c)); intros R0 H; [eauto|].
+    cbn [eval_lplan] in H. destruct (bind_ok _ _ _ H) as [R [HR _]]. eauto. }
+  assert (Hj : forall j, (j = LArbitraryJoin k (and_all (x_arb (extract k la c) ++ map cmp_expr (x_cmp (extract k la c)))) la ra l' r' \/
+                          j = LComparisonJoin k (map (fun cm => match cm with (o, a, b) => (o, a, shift_cols la b) end)
+                                                     (x_cmp (extract k la c))) la ra l' r') ->
+                forall o, eval_lplan d en j = Ok o -> exists L R, eval_lplan d en pl = Ok L /\ eval_lplan d en pr = Ok R).
+  { intros j [->| ->] o H; cbn [eval_lplan] in H;
+      destruct (bind_ok _ _ _ H) as [L0 [HL0 H1]]; destruct (bind_ok _ _ _ H1) as [R0 [HR0 _]];
+      destruct (Hl _ HL0) as [L HL]; destruct (Hr _ HR0) as [R HR]; eauto. }
+  destruct (is_nil (x_cmp (extract k la c)) || negb (is_inner k) && negb (is_nil (x_arb (extract k la c)))).
+  - intros H. eapply Hj; [left; reflexivity|exact H].
+  - destruct (x_arb (extract k la c)) as [|f fs].
+    + intros H. eapply Hj; [right; reflexivity|exact H].
+    + intros H. cbn [eval_lplan] in H. destruct (bind_ok _ _ _ H) as [o [Ho _]].
+      eapply Hj; [right; reflexivity|exact Ho].
+Qed.
+
+Theorem plan_of_agree sch d : db_arity_ok sch d = true ->
+  forall q, joins_wf sch q = true ->
+  forall en, agree (eval_lplan d en (plan_of q)) (eval_query d en q).
+Proof.
+  intros Hd q Hq en.
+  pose proof (plan_gen_correct (@agree) (@agree_refl) (@agree_bind) extract_join (arity_wfj sch)
+                (fun d => db_arity_ok sch d = true)) as G.
+  assert (Hj : forall d en k e la ra fl fr pl pr, db_arity_ok sch d = true -> arity_wfj sch fl fr e la ra = true ->
+     agree (eval_lplan d en pl) (eval_from d en fl) -> agree (eval_lplan d en pr) (eval_from d en fr) ->
+     (forall x, agree (eval_pexpr d (x :: en) (plan_expr extract_join e)) (eval_expr d (x :: en) e)) ->
+     agree (eval_lplan d en (extract_join k (plan_expr extract_join e) la ra pl pr))
+           (eval_from d en (FJoin k fl fr (Some e) la ra))).
+  { clear. intros d en k e la ra fl fr pl pr Hd Hw Hl Hr _ out out' Hp Hs.
+    unfold arity_wfj in Hw. apply andb_true_iff in Hw. destruct Hw as [Hla Hns].
+    unfold opt_eqb in Hla. destruct (from_arity sch fl) as [n|] eqn:Fa; [|discriminate]. apply Nat.eqb_eq in Hla. subst n.
+    cbn [eval_from] in Hs. destruct (bind_ok _ _ _ Hs) as [L [HL Hs1]]. destruct (bind_ok _ _ _ Hs1) as [R [HR Hs2]].
+    destruct (extract_join_children_ok _ _ _ _ _ _ _ _ _ Hp) as [L0 [R0 [HL0 HR0]]].
+    pose proof (Hl L0 L HL0 HL) as E1. pose proof (Hr R0 R HR0 HR) as E2. subst L0 R0.
+    apply (extract_join_agree d en k (plan_expr extract_join e) la ra pl pr L R HL0 HR0); [|exact Hp|].
+    - exact (proj2 (arity_sound sch d Hd) fl la Fa en L HL).
+    - rewrite <- Hs2. unfold rjoin.
+      apply (rel_join_rows (fun A x y => x = y) (fun A x => eq_refl) (@eq_bind)).
+      intros x. unfold cv. cbn [opt_pred]. rewrite (nosub_plan_exact extract_join e Hns). reflexivity. }
+  destruct (G Hj) as [_ [GQ _]]. apply GQ; [exact Hq|exact Hd].
+Qed.
+
+(* the same, spelled out: whenever neither side raises an error the rows (and their order) coincide *)
+Corollary plan_of_correct_ok sch d q en rows rows' :
+  db_arity_ok sch d = true -> joins_wf sch q = true ->
+  eval_query d en q = Ok rows -> eval_lplan d en (plan_of q) = Ok rows' -> rows' = rows.
+Proof. intros Hd Hq Hs Hp. exact (plan_of_agree sch d Hd q Hq en rows' rows Hp Hs). Qed.
